@@ -143,7 +143,11 @@ Record config := mkConfig
   { cfg_ca : N;          (* identity of the CA key pair *)
     cfg_key : N;         (* identity of the config's leaf key pair *)
     cfg_org : str;
-    cfg_validity : Z }.  (* milliseconds *)
+    cfg_validity : Z;    (* milliseconds *)
+    (* options that exist on mitm.Config but must NOT enter any certificate
+       decision (C06_options_do_not_enter_the_decision): *)
+    cfg_skip_verify : bool;   (* SkipTLSVerify: InsecureSkipVerify of the returned tls.Config *)
+    cfg_h2 : bool }.          (* SetH2Config: only NextProtos *)
 
 Inductive san :=
 | SanIP (canon : str)    (* IPAddresses = [ip]; canonical text of ip *)
